@@ -20,13 +20,45 @@ theorem update_one_touches_first_only (cfg : Cfg) (now : Int) (c c1 c' : Coll) (
     sameExcept q.1 c1.docs c'.docs ∧ c'.docs.length = c1.docs.length :=
   Proofs.C14.update_one_touches_first_only cfg now c c1 c' fs u q rest r he hi hg hn hs h
 
-/-- … and when nothing is selected they change nothing. -/
-theorem update_one_no_match_noop (cfg : Cfg) (now : Int) (c c1 c' : Coll) (fs : Fields) (u : Val)
+/-- … and when nothing is selected they change nothing.  Full statement (for any call, failing
+    ones included, with TTL indexes): FALSE of the model and of the code — a call that raises
+    before the scan (an empty `$set: {}` on server < 5, a non-document update) returns before the
+    expiry pass, so expired documents are still stored afterwards. -/
+def update_one_no_match_noop_full : Prop :=
+  ∀ (cfg : Cfg) (now : Int) (c c1 c' : Coll) (fs : Fields) (u : Val) (r : R UpdateResult),
+    expire now c = .ok c1 → c1.docs ≠ [] →
+    selectDocs (patchDT (.doc fs)) c1.docs = .ok [] →
+    applyUpdateColl cfg now c (.doc fs) u false false = (c', r) →
+    c'.docs = c1.docs
+
+theorem update_one_no_match_noop_full_fails : ¬ update_one_no_match_noop_full :=
+  Proofs.C14Cex.update_one_no_match_noop_false
+
+/-- what holds for every call: the collection is the expired one, or the call raised before the
+    scan and returned the collection exactly as given (nothing changed either way) -/
+theorem update_one_no_match_noop_partial (cfg : Cfg) (now : Int) (c c1 c' : Coll) (fs : Fields) (u : Val)
     (r : R UpdateResult) (he : expire now c = .ok c1) (hne : c1.docs ≠ [])
     (hs : selectDocs (patchDT (.doc fs)) c1.docs = .ok [])
     (h : applyUpdateColl cfg now c (.doc fs) u false false = (c', r)) :
+    c' = c1 ∨ (c' = c ∧ ∃ e, r = .error e) :=
+  Proofs.C14.update_one_no_match_noop_alt cfg now c c1 c' fs u r he hne hs h
+
+/-- … the original conclusion for every successful call -/
+theorem update_one_no_match_noop_ok (cfg : Cfg) (now : Int) (c c1 c' : Coll) (fs : Fields)
+    (u : Val) (res : UpdateResult) (he : expire now c = .ok c1) (hne : c1.docs ≠ [])
+    (hs : selectDocs (patchDT (.doc fs)) c1.docs = .ok [])
+    (h : applyUpdateColl cfg now c (.doc fs) u false false = (c', .ok res)) :
     c'.docs = c1.docs :=
-  Proofs.C14.update_one_no_match_noop cfg now c c1 c' fs u r he hne hs h
+  Proofs.C14.update_one_no_match_noop_alt_ok cfg now c c1 c' fs u res he hne hs h
+
+/-- … and for every call on a collection without TTL index -/
+theorem update_one_no_match_noop_nottl (cfg : Cfg) (now : Int) (c c1 c' : Coll) (fs : Fields)
+    (u : Val) (r : R UpdateResult) (he : expire now c = .ok c1) (hne : c1.docs ≠ [])
+    (hn : c.ttlIndexes = [])
+    (hs : selectDocs (patchDT (.doc fs)) c1.docs = .ok [])
+    (h : applyUpdateColl cfg now c (.doc fs) u false false = (c', r)) :
+    c'.docs = c1.docs :=
+  Proofs.C14.update_one_no_match_noop_alt_nottl cfg now c c1 c' fs u r he hne hn hs h
 
 /-- `delete_one` removes exactly the first selected document in natural order. -/
 theorem delete_one_removes_first (now : Int) (c c1 : Coll) (fs : Fields)
@@ -51,35 +83,79 @@ theorem find_one_is_first_sorted (now : Int) (c c1 : Coll) (fs : Fields) (proj :
   Proofs.C14.find_one_is_first_sorted now c c1 fs proj sort sel out he hne hs h
 
 /-- **find_one_and_delete** acts on exactly the first match in the requested sort order,
-    whatever projection is requested, and returns that document's projected image. -/
-theorem fam_delete_spec (cfg : Cfg) (now : Int) (c c1 c' : Coll) (fs : Fields) (proj : Val)
+    whatever projection is requested, and returns that document's projected image.
+    Full statement over ALL model states satisfying `IdInv`/`GoodKeys`: FALSE — the model's state
+    space contains collections no history reaches (a stored `_id` that is not normalised to
+    milliseconds, an array as store key: `insert` normalises, `storeKey` rejects lists), on which
+    the second look-up by `_id` misses the target. -/
+def fam_delete_spec_full : Prop :=
+  ∀ (cfg : Cfg) (now : Int) (c c1 c' : Coll) (fs : Fields) (proj : Val)
+    (sort : Option SortSpec) (sel : List (Val × Val)) (target : Val) (tid : Val) (ret : Option Val),
+    expire now c = .ok c1 → IdInv c → GoodKeys c → c.ttlIndexes = [] →
+    selectDocs (patchDT (.doc fs)) c1.docs = .ok sel →
+    firstSorted sort sel = .ok (some target) → idOf target = some tid →
+    isScalar tid = true →
+    findAndModify cfg now c (.doc fs) proj none false sort false = (c', .ok ret) →
+    sameExcept tid c1.docs c'.docs ∧ c'.docs.length + 1 = c1.docs.length ∧
+    copyOnlyFields target proj = .ok (ret.getD .null) ∧ ret.isSome
+
+theorem fam_delete_spec_full_fails : ¬ fam_delete_spec_full :=
+  Proofs.C14Cex.fam_delete_spec_false
+
+/-- proved: no store key is an array and the target's `_id` is normalised (`hna`, `hpt`: both
+    hold in every state a history reaches) -/
+theorem fam_delete_spec_partial (cfg : Cfg) (now : Int) (c c1 c' : Coll) (fs : Fields) (proj : Val)
     (sort : Option SortSpec) (sel : List (Val × Val)) (target : Val) (tid : Val) (ret : Option Val)
     (he : expire now c = .ok c1) (hi : IdInv c) (hg : GoodKeys c) (hn : c.ttlIndexes = [])
+    (hna : ∀ p ∈ c.docs, p.1.isArr = false)
     (hs : selectDocs (patchDT (.doc fs)) c1.docs = .ok sel)
     (ht : firstSorted sort sel = .ok (some target)) (hid : idOf target = some tid)
-    (hsc : isScalar tid = true)
+    (hsc : isScalar tid = true) (hpt : patchDT tid = tid)
     (h : findAndModify cfg now c (.doc fs) proj none false sort false = (c', .ok ret)) :
     sameExcept tid c1.docs c'.docs ∧ c'.docs.length + 1 = c1.docs.length ∧
     copyOnlyFields target proj = .ok (ret.getD .null) ∧ ret.isSome :=
-  Proofs.C14.fam_delete_spec cfg now c c1 c' fs proj sort sel target tid ret he hi hg hn hs ht hid hsc h
+  Proofs.C14.fam_delete_spec_alt cfg now c c1 c' fs proj sort sel target tid ret he hi hg hn hna hs
+    ht hid hsc hpt h
 
 /-- **find_one_and_update / find_one_and_replace** (a target exists): only the first match in
-    sort order may change, nothing is added or removed, and with return_document=BEFORE the
-    returned document is the projection of the target as it was. -/
-theorem fam_update_spec (cfg : Cfg) (now : Int) (c c1 c' : Coll) (fs : Fields) (proj u : Val)
-    (upsert after : Bool)
-    (sort : Option SortSpec) (sel : List (Val × Val)) (target : Val) (tid : Val) (ret : Option Val)
-    (he : expire now c = .ok c1) (hi : IdInv c) (hg : GoodKeys c) (hn : c.ttlIndexes = [])
-    (hs : selectDocs (patchDT (.doc fs)) c1.docs = .ok sel)
-    (ht : firstSorted sort sel = .ok (some target)) (hid : idOf target = some tid)
-    (hsc : isScalar tid = true)
-    (h : findAndModify cfg now c (.doc fs) proj (some u) upsert sort after = (c', .ok ret)) :
+    sort order may change, nothing is added or removed, with return_document=BEFORE the returned
+    document is the projection of the target as it was, with AFTER the projection of the stored
+    document under the target's `_id`.  Full statement: FALSE on the same unreachable states as
+    `fam_delete_spec_full`. -/
+def fam_update_spec_full : Prop :=
+  ∀ (cfg : Cfg) (now : Int) (c c1 c' : Coll) (fs : Fields) (proj u : Val) (upsert after : Bool)
+    (sort : Option SortSpec) (sel : List (Val × Val)) (target : Val) (tid : Val) (ret : Option Val),
+    expire now c = .ok c1 → IdInv c → GoodKeys c → c.ttlIndexes = [] →
+    selectDocs (patchDT (.doc fs)) c1.docs = .ok sel →
+    firstSorted sort sel = .ok (some target) → idOf target = some tid →
+    isScalar tid = true →
+    findAndModify cfg now c (.doc fs) proj (some u) upsert sort after = (c', .ok ret) →
     sameExcept tid c1.docs c'.docs ∧ c'.docs.length = c1.docs.length ∧
     (after = false → copyOnlyFields target proj = .ok (ret.getD .null) ∧ ret.isSome) ∧
     (after = true → ∃ p' ∈ c'.docs, pyEq p'.1 tid = true ∧
+        copyOnlyFields p'.2 proj = .ok (ret.getD .null))
+
+theorem fam_update_spec_full_fails : ¬ fam_update_spec_full :=
+  Proofs.C14Cex.fam_update_spec_false
+
+/-- proved under `hna`, `hpt` (see `fam_delete_spec_partial`); the AFTER conjunct moreover assumes
+    that the target has pairwise distinct top-level keys, as every Python dict has -/
+theorem fam_update_spec_partial (cfg : Cfg) (now : Int) (c c1 c' : Coll) (fs : Fields) (proj u : Val)
+    (upsert after : Bool)
+    (sort : Option SortSpec) (sel : List (Val × Val)) (target : Val) (tid : Val) (ret : Option Val)
+    (he : expire now c = .ok c1) (hi : IdInv c) (hg : GoodKeys c) (hn : c.ttlIndexes = [])
+    (hna : ∀ p ∈ c.docs, p.1.isArr = false)
+    (hs : selectDocs (patchDT (.doc fs)) c1.docs = .ok sel)
+    (ht : firstSorted sort sel = .ok (some target)) (hid : idOf target = some tid)
+    (hsc : isScalar tid = true) (hpt : patchDT tid = tid)
+    (h : findAndModify cfg now c (.doc fs) proj (some u) upsert sort after = (c', .ok ret)) :
+    sameExcept tid c1.docs c'.docs ∧ c'.docs.length = c1.docs.length ∧
+    (after = false → copyOnlyFields target proj = .ok (ret.getD .null) ∧ ret.isSome) ∧
+    (after = true → (∀ tfs, target = Val.doc tfs → (dkeys tfs).Nodup) →
+      ∃ p' ∈ c'.docs, pyEq p'.1 tid = true ∧
         copyOnlyFields p'.2 proj = .ok (ret.getD .null)) :=
-  Proofs.C14.fam_update_spec cfg now c c1 c' fs proj u upsert after sort sel target tid ret
-    he hi hg hn hs ht hid hsc h
+  Proofs.C14.fam_update_spec_alt cfg now c c1 c' fs proj u upsert after sort sel target tid ret
+    he hi hg hn hna hs ht hid hsc hpt h
 
 /-- With no match and no upsert `find_one_and_*` returns nothing and changes nothing. -/
 theorem fam_no_match_noop (cfg : Cfg) (now : Int) (c c1 c' : Coll) (fs : Fields) (proj : Val)
@@ -102,5 +178,15 @@ example : (match findAndModify {} 0
       ret == .doc [("s", .int 3)] &&
       (c'.lookup (.int 3) == some (.doc [("_id", .int 3), ("a", .int 1), ("s", .int 3), ("hit", .int 1)]))
     | _ => false) = true := by decide +kernel
+
+/-- non-vacuity of the extra hypotheses of the `_partial` theorems on that collection: no store key
+    is an array, the target's `_id` is normalised, its keys are distinct -/
+example : (∀ p ∈ ([(.int 1, .null), (.int 2, .null), (.int 3, .null)] : List (Val × Val)),
+      p.1.isArr = false) ∧ patchDT (.int 3) = .int 3 ∧
+    (dkeys [("_id", .int 3), ("a", .int 1), ("s", .int 3)]).Nodup := by
+  refine ⟨?_, rfl, by decide⟩
+  intro p hp
+  simp only [List.mem_cons, List.not_mem_nil, or_false] at hp
+  rcases hp with rfl | rfl | rfl <;> rfl
 
 end MongoModel.Props.C14
